@@ -74,6 +74,11 @@ theorem doRead_frame (g : Cfg) (s : St) :
   have h := doRead_rel' g s a t hd
   cases h <;> simp
 
+theorem doRead_hup (g : Cfg) (s : St) : (doRead g s).2.hup = s.hup := by
+  rcases hd : doRead g s with ⟨a, t⟩
+  have h := doRead_rel' g s a t hd
+  cases h <;> simp
+
 /-- `doRead` answers `.closed` exactly on a closed conn -/
 theorem doRead_closed_iff (g : Cfg) (s : St) : (doRead g s).1 = .closed ↔ s.closed = true := by
   unfold doRead
